@@ -394,7 +394,11 @@ Fixpoint drive (one_rr : bool) (s : st) (ws : list wmsg) : result * nat :=
       match process_message s (from_wire one_rr w) with
       | (s', Some e) => (Error e (pub s'), 0%nat)
       | (s', None) =>
-          if done s' then (Done (pub s'), 1%nat)
+          if done s' then
+            (* after the loop: "if query.keyring and r is not None and not r.had_tsig: raise
+               FormError('missing TSIG')" (only reachable for the up-to-date answer since 388fa96) *)
+            if req_tsig s' && negb (w_tsig w) then (Error eMissingTSIG (pub s'), 1%nat)
+            else (Done (pub s'), 1%nat)
           else let '(r, n) := drive one_rr s' rest in (r, S n)
       end
   end.
